@@ -18,7 +18,12 @@
 (*   try_blocks     a FUTEX_WAIT inside try_lock / try_read / try_write;                    *)
 (*   lost_wakeup    the run ended (nobody can take a step without the environment's help)   *)
 (*                  with a thread parked in FUTEX_WAIT while all holders have released;     *)
-(*   panic          a lock operation panicked instead of returning.                         *)
+(*   panic          a lock operation panicked instead of returning;                         *)
+(*   data_lost      get_mut / into_inner on the quiescent lock do not deliver the value the  *)
+(*                  write accesses left.                                                     *)
+(* Debug formatting of the lock hands out no guard: during the call the lock counts as      *)
+(* possibly held; its read must not coincide with a foreign write guard and must be         *)
+(* race-free; a try_lock / try_write on the quiescent lock after the run must succeed.      *)
 (* Nothing else is a violation.  The first violation of each run is recorded; the verdicts  *)
 (* are printed as one JSON value tagged JUDGED.                                             *)
 EXTENDS Machine, TLC, Json, IOUtils
@@ -35,7 +40,7 @@ VARIABLES l, st, bad, nviol, nruns, ncut
 Fresh(run) ==
     [ run |-> run, gw |-> {}, gr |-> {}, rel |-> {}, incall |-> [t \in T |-> "-"],
       saw |-> [t \in T |-> FALSE], parked |-> {}, knows |-> [t \in T |-> {}],
-      pub |-> [x \in Locs |-> {}], lastW |-> 0, reads |-> {}, acc |-> 0, hit |-> "" ]
+      pub |-> [x \in Locs |-> {}], lastW |-> 0, reads |-> {}, acc |-> 0, nw |-> 0, hit |-> "" ]
 
 Flag(s, code) == IF s.hit = "" THEN [s EXCEPT !.hit = code] ELSE s
 SeqSet(q) == {q[i] : i \in 1..Len(q)}
@@ -45,12 +50,16 @@ OnCall(s, e) ==
     LET t == e.t IN
     IF e.fn = "unlock"
     THEN [s EXCEPT !.gw = @ \ {t}, !.gr = @ \ {t}, !.rel = @ \cup {t}, !.incall[t] = "unlock"]
+    ELSE IF e.fn = "debug"
+    \* Debug formatting of the lock itself may take the lock for the duration of the call (it hands
+    \* out no guard): from now until its return the lock counts as possibly held
+    THEN [s EXCEPT !.rel = @ \cup {t}, !.incall[t] = "debug", !.saw = [u \in T |-> TRUE]]
     ELSE [s EXCEPT !.incall[t] = e.fn, !.saw[t] = (s.gw \cup s.gr \cup s.rel) # {}]
 
 OnRet(s, e) ==
     LET t == e.t
         s1 == [s EXCEPT !.incall[t] = "-"] IN
-    IF e.fn = "unlock" THEN [s1 EXCEPT !.rel = @ \ {t}]
+    IF e.fn \in {"unlock", "debug"} THEN [s1 EXCEPT !.rel = @ \ {t}]
     ELSE IF e.fn \in AcqW /\ e.ok
     THEN LET s2 == [s1 EXCEPT !.gw = @ \cup {t}, !.saw = [u \in T |-> TRUE]] IN
          IF (s.gw \ {t}) # {} \/ s.gr # {} THEN Flag(s2, "exclusion") ELSE s2
@@ -74,19 +83,32 @@ OnData(s, e) ==
     LET t == e.t
         id == s.acc + 1 IN
     IF e.kind = "write"
-    THEN LET s1 == [s EXCEPT !.acc = id, !.lastW = id, !.reads = {},
+    THEN LET s1 == [s EXCEPT !.acc = id, !.lastW = id, !.reads = {}, !.nw = @ + 1,
                              !.knows = [u \in T |-> IF u = t THEN {id} ELSE {}],
                              !.pub = [x \in Locs |-> {}]] IN
          IF t \notin s.gw THEN Flag(s1, "access_without_guard")
          ELSE IF WriteRaces(s.knows[t], s.lastW, s.reads) THEN Flag(s1, "race") ELSE s1
     ELSE LET s1 == [s EXCEPT !.acc = id, !.reads = @ \cup {id}, !.knows[t] = @ \cup {id}] IN
-         IF t \notin (s.gw \cup s.gr) THEN Flag(s1, "access_without_guard")
+         \* a read made by Debug formatting of the lock (no guard is handed out): nobody else may
+         \* hold a write guard at that instant, and it must happen-after the last write
+         IF s.incall[t] = "debug"
+         THEN IF (s.gw \ {t}) # {} THEN Flag(s1, "exclusion")
+              ELSE IF ReadRaces(s.knows[t], s.lastW) THEN Flag(s1, "race") ELSE s1
+         ELSE IF t \notin (s.gw \cup s.gr) THEN Flag(s1, "access_without_guard")
          ELSE IF ReadRaces(s.knows[t], s.lastW) THEN Flag(s1, "race") ELSE s1
 
 OnEnd(s, e) ==
     IF e.cut THEN s
     ELSE IF Len(e.blocked) > 0 /\ s.gw = {} /\ s.gr = {} THEN Flag(s, "lost_wakeup")
     ELSE IF Len(e.blocked) > 0 THEN Flag(s, "deadlock_with_holder")
+    ELSE s
+
+\* after the run, on the quiescent lock with no guard outstanding: try_lock / try_write must
+\* succeed (an operation that handed out no guard must not have left the lock taken), get_mut and
+\* into_inner must deliver what the write accesses left
+OnFinal(s, e) ==
+    IF ~e.try_ok /\ s.gw = {} /\ s.gr = {} /\ s.rel = {} THEN Flag(s, "try_dishonest")
+    ELSE IF e.get_mut # s.nw \/ e.into_inner # s.nw THEN Flag(s, "data_lost")
     ELSE s
 
 Apply(s, e) ==
@@ -101,6 +123,7 @@ Apply(s, e) ==
       [] e.ev = "wake"  -> [s EXCEPT !.parked = @ \ SeqSet(e.woken)]
       [] e.ev = "data"  -> OnData(s, e)
       [] e.ev = "panic" -> Flag(s, "panic")
+      [] e.ev = "final" -> OnFinal(s, e)
       [] e.ev = "end"   -> OnEnd(s, e)
       [] OTHER -> s
 
